@@ -1513,6 +1513,123 @@ func TestVerifUDPNeighbour(t *testing.T) {
 
 // ---------------------------------------------------------------- tests
 
+// udpOOBByeCase: an out-of-band message used as a control message - the accepted session's handler
+// closes its own session when it sees "bye".  Sending it must not delay anybody's reliable stream:
+// the Close returns, the neighbour on the same listener keeps echoing and a new peer is still served.
+func udpOOBByeCase(t *testing.T, id int, rep *vreport, rng *vrng, ci udpCipher) {
+	l, err := ListenWithOptions("127.0.0.1:0", ci.mk(), 2, 1)
+	if err != nil {
+		t.Fatal(err)
+	}
+	replay := map[string]any{"test": "TestVerifUDPOOB/bye", "seed": vSeed(), "case": id, "cipher": ci.name}
+	cleanup := []func(){func() { l.Close() }}
+	// on a violation the listener may be wedged for good: clean-up must not wait for it
+	defer func() {
+		done := make(chan struct{})
+		go func() {
+			for i := len(cleanup) - 1; i >= 0; i-- {
+				cleanup[i]()
+			}
+			close(done)
+		}()
+		select {
+		case <-done:
+		case <-time.After(3 * time.Second):
+		}
+	}()
+	byeSeen, byeClosed := make(chan struct{}, 16), make(chan struct{}, 16)
+	go func() {
+		for {
+			sess, err := l.AcceptKCP()
+			if err != nil {
+				return
+			}
+			sess.SetNoDelay(1, 10, 2, 1)
+			sess.SetOOBHandler(func(p []byte) {
+				if string(p) == "bye" {
+					select {
+					case byeSeen <- struct{}{}:
+					default:
+					}
+					sess.Close()
+					select {
+					case byeClosed <- struct{}{}:
+					default:
+					}
+				}
+			})
+			go func() {
+				buf := make([]byte, 4096)
+				for {
+					sess.SetReadDeadline(time.Now().Add(20 * time.Second))
+					n, err := sess.Read(buf)
+					if err != nil {
+						return
+					}
+					sess.Write(buf[:n])
+				}
+			}()
+		}
+	}()
+	dial := func() *UDPSession {
+		c, err := DialWithOptions(l.Addr().String(), ci.mk(), 2, 1)
+		if err != nil {
+			t.Fatal(err)
+		}
+		c.SetNoDelay(1, 10, 2, 1)
+		cleanup = append(cleanup, func() { c.Close() })
+		return c
+	}
+	echo := func(c *UDPSession, n int) error {
+		msg := rng.bytes(n)
+		c.SetDeadline(time.Now().Add(4 * time.Second))
+		if _, err := c.Write(msg); err != nil {
+			return err
+		}
+		got := make([]byte, n)
+		if _, err := io.ReadFull(c, got); err != nil {
+			return err
+		}
+		if !bytes.Equal(got, msg) {
+			return fmt.Errorf("echo differs")
+		}
+		return nil
+	}
+	a, b := dial(), dial()
+	if ea, eb := echo(a, 40), echo(b, 40); ea != nil || eb != nil {
+		rep.violate("udp-oob-warmup", fmt.Sprintf("bye case %d (%s): echo before anything happened: %v / %v", id, ci.name, ea, eb), replay)
+		return
+	}
+	seen := false
+	for i := 0; i < 60 && !seen; i++ {
+		a.SendOOB([]byte("bye"))
+		select {
+		case <-byeSeen:
+			seen = true
+		case <-time.After(50 * time.Millisecond):
+		}
+	}
+	rep.Cases++
+	if !seen {
+		rep.Distribution["udp_oob_bye_never_arrived"]++
+		return
+	}
+	rep.Nontrivial++
+	rep.Monitors["udp_oob_handler_close"]++
+	select {
+	case <-byeClosed:
+	case <-time.After(3 * time.Second):
+		rep.violate("oob-disturbs-stream", fmt.Sprintf("bye case %d (%s): Close() called by the out-of-band handler of an accepted session on its own session did not return within 3 s", id, ci.name), replay)
+	}
+	if err := echo(b, 3000); err != nil {
+		rep.violate("oob-disturbs-stream", fmt.Sprintf("bye case %d (%s): after an out-of-band message to session A (whose handler closes A), the reliable stream of session B on the same listener stalled: %v", id, ci.name, err), replay)
+		return
+	}
+	if err := echo(dial(), 40); err != nil {
+		rep.violate("oob-disturbs-stream", fmt.Sprintf("bye case %d (%s): after an out-of-band message to session A (whose handler closes A), a new peer of the same listener is not served: %v", id, ci.name, err), replay)
+	}
+}
+
 func TestVerifUDPOOB(t *testing.T) {
 	rng := newRng(vSeed() ^ 0x0DD)
 	rep := newReport("UDP-oob")
@@ -1528,6 +1645,12 @@ func TestVerifUDPOOB(t *testing.T) {
 				id++
 			}
 			udpOOBRefusedCase(t, id, rep, rng, ci)
+			id++
+		}
+	}
+	for k, ci := range udpCiphers() {
+		if vThorough() || k%3 == 1 {
+			udpOOBByeCase(t, id, rep, rng, ci)
 			id++
 		}
 	}
